@@ -26,6 +26,10 @@ class FaultFS:
         self.dead = False  # after a crash: raw writes are discarded until the driver restarts
         self.opened_for_write = set()
         self.discarded_after_crash = 0
+        # simulated wall clock of the file system: every file written through the raw layer gets this
+        # modification time when it is closed, so that st_mtime is a quantity the trace decides (ops carry
+        # "dt") and not a reading of the real clock
+        self.now = 1_700_000_000.0
         self._saved = []
         self.real_open = io.open
         self.real_mkdir = os.mkdir
@@ -128,10 +132,25 @@ class FaultFS:
             return self.real_mkdir(path, mode)
         return self.real_mkdir(path, mode, dir_fd=dir_fd)
 
+    def _dead_noop(self, real):
+        """A dead process deletes nothing: while the simulated crash unwinds, the clean-up code of the process
+        (TemporaryDirectory.__exit__ -> shutil.rmtree -> os.unlink / os.rmdir, also through dir_fd) must not
+        remove what a killed process would have left behind."""
+        def wrapper(*a, **kw):
+            if self.dead:
+                self.discarded_after_crash += 1
+                return None
+            return real(*a, **kw)
+        return wrapper
+
     def install(self):
         self._saved = [(builtins, "open", builtins.open), (io, "open", io.open),
                        (tarfile, "bltn_open", tarfile.bltn_open), (os, "mkdir", os.mkdir),
-                       (tempfile, "tempdir", tempfile.tempdir)]
+                       (tempfile, "tempdir", tempfile.tempdir),
+                       (os, "unlink", os.unlink), (os, "remove", os.remove), (os, "rmdir", os.rmdir),
+                       (os, "replace", os.replace), (os, "rename", os.rename)]
+        for name in ("unlink", "remove", "rmdir", "replace", "rename"):
+            setattr(os, name, self._dead_noop(getattr(os, name)))
         builtins.open = self.sim_open
         io.open = self.sim_open
         tarfile.bltn_open = self.sim_open
@@ -171,6 +190,17 @@ class FaultyFileIO(io.FileIO):
         if wr:
             fs.opened_for_write.add(self._path)
         super().__init__(file, mode, closefd, opener)
+
+    def close(self):
+        stamp = not self.closed and not self._sink and any(c in self.mode for c in "wxa+")
+        try:
+            super().close()
+        finally:
+            if stamp and not self._fs.dead:
+                try:
+                    os.utime(self._path, (self._fs.now, self._fs.now))
+                except OSError:
+                    pass
 
     def write(self, b):
         fs = self._fs
